@@ -15,12 +15,12 @@ from sa.props._lib_i import (sect, COMPAT, Abstain, BlockRaised, FollowModule, N
 PROPERTY = "C43"
 RULE_KINDS = {
     "quote/table": "structural", "quote/dequote-table-inverse": "structural", "dequote/regex": "structural",     # table agreement / constant pattern shape
-    "send/single-wire-path": "structural", "queue/fifo": "structural", "send-defuse/": "structural",
+    "send/single-wire-path": "structural", "queue/fifo": "structural", "send-defuse/": "structural", "send/wire-carries-whole-line": "bounded", "send/message-reaches-wire-whole": "bounded",
     "quote/escaper-rows": "finite-exhaustive", "quote/escaper-order": "finite-exhaustive",            # every table row / the concatenation of all rows
     "quote/output-alphabet": "finite-exhaustive", "dequote/undoes-quote": "finite-exhaustive",         # all 256 units + special-character words, premise checked
     "quote/output-alphabet (bounded)": "bounded", "dequote/undoes-quote (bounded)": "bounded",
     "send/quoted-before-wire": "bounded", "send/terminator": "bounded", "send/siblings-forward-length": "bounded", "split/": "bounded", "limit/": "bounded",
-    "queue/drains-in-order": "bounded", "ctcp/frame-before-dequote": "structural", "ctcp/extract-undoes-stringify": "bounded",
+    "queue/drains-in-order": "bounded", "ctcp/frame-before-dequote": "structural", "ctcp/reader-regex-any-matches-all": "structural", "ctcp/extract-undoes-stringify": "bounded",
 }
 IRC = "words/protocols/irc.py"
 TECHNIQUE = "table agreement, def-use, call-graph closure; exhaustive quoting units; bounded send grid"
@@ -239,6 +239,24 @@ def _check_send_path(ctx, env, low_pairs):
                 raise Abstain("the written value does not derive from the line parameter in a recognisable way")
             ctx.check("raw" not in fl, "send-defuse/quoted-before-wire", ctx.construct(base + "_reallySendLine", c),
                       "the line parameter reaches the wire call by a definition that does not pass through lowQuote(...): a CR, LF or NUL in a message goes out raw")
+        # content-losing operations on the sink path: a slice / index applied to a value that carries the line cuts octets off what goes to the wire
+        def on_path(e, seen):
+            out = [e]
+            for x in ast.walk(e):
+                if isinstance(x, ast.Name) and x.id in defs and x.id not in seen:
+                    seen.add(x.id)
+                    for v in defs[x.id]:
+                        out += on_path(v, seen)
+            return out
+        for c in sinks:
+            cuts = [x for root in on_path(c.args[-1], set()) for x in ast.walk(root) if isinstance(x, ast.Subscript) and isinstance(x.slice, ast.Slice) and flows(x.value)]
+            for x in cuts:
+                whole = x.slice.lower is None and x.slice.upper is None and x.slice.step is None
+                ctx.check(whole, "send-defuse/nothing-cut-on-the-way-to-the-wire", ctx.construct(base + "_reallySendLine", x),
+                          f"the value written to the transport is taken from {src(x)}: part of the (quoted, encoded) line is cut off on its way to the wire - message text is "
+                          "silently lost, possibly in the middle of a UTF-8 sequence; keeping lines within the limit is the splitter's job, before this point")
+            if not cuts:
+                ctx.ok("send-defuse/nothing-cut-on-the-way-to-the-wire", ctx.construct(base + "_reallySendLine", c))
     # -- _reallySendLine evaluated (with the private helpers it calls): the wire carries lowQuote(line), UTF-8 encoded, then CR LF
     f = ctx.func(IRC, "IRCClient._reallySendLine")
     q = base + "_reallySendLine"
@@ -278,6 +296,20 @@ def _check_send_path(ctx, env, low_pairs):
                   f"{q} | {type(sample).__name__} line {'with control characters' if any(c in (sample if isinstance(sample, str) else sample.decode('latin-1')) for c in chr(13) + chr(10) + chr(0) + chr(16)) else 'plain'}",
                   f"the line {sample!r} goes out as {wire!r}; required {want!r}: low-level quoted (a CR, LF or NUL in a message must not reach the wire raw, it would split the "
                   "IRC line), UTF-8 encoded, terminated by exactly CR LF (the limit accounts for two octets)")
+
+    # long lines (longer than any protocol limit, multi-octet characters): the wire payload, decoded, is the line - nothing is cut at this point
+    for sample in ("\u00e9" * 400, "x" * 700, ("\u20ac\x10" * 150) + " tail"):
+        wire = send_one(sample)
+        quoted = real_quote(sample)
+        want = (quoted.encode("utf-8") if isinstance(quoted, str) else quoted) + b"\r\n"
+        try:
+            back = wire[:-2].decode("utf-8")
+        except UnicodeDecodeError as ex:
+            back = f"<not UTF-8: {ex.reason} at octet {ex.start}>"
+        ctx.check(wire == want, "send/wire-carries-whole-line", f"{q} | line of {len(sample)} characters, {len(want)} octets on the wire",
+                  f"a line of {len(sample)} characters ({sample[:6]!r}...) is written as {len(wire)} octets; its quoted UTF-8 form has {len(want)}: "
+                  + (f"the payload decodes to {len(back)} characters - the tail of the text is lost" if not back.startswith("<") else f"the payload is cut inside a character {back}")
+                  + " (whatever the splitter hands over must reach the peer; length is the splitter's concern)")
 
     # -- _sendMessage budget arithmetic
     f = ctx.func(IRC, "IRCClient._sendMessage")
@@ -410,6 +442,47 @@ def _check_send_path(ctx, env, low_pairs):
                             over_plain = over_plain or (text, length, w)
                         else:
                             over_exp = over_exp or (text, length, w)
+    # -- end to end: a long message through _sendMessage, the real sendLine (no rate limit) and _reallySendLine; what the peer can decode from the wire is the message
+    denv = dict(env)
+    for lp_ in _module_loops(mod, "mDequoteTable"):
+        denv.setdefault("mDequoteTable", {})
+        eval_block([lp_], denv)
+    real_dequote = interp(ctx.func(IRC, "lowDequote"), FollowModule(mod, dict(COMPAT), denv), denv)
+    for text in ("\u00e9" * 400 + " and " + "caf\u00e9 " * 120, "word " * 300, "x" * 1200):
+        sent = []
+        fl = FollowModule(mod, dict(COMPAT), env)
+        fl["basic.LineReceiver.sendLine"] = lambda slf, data, _s=sent: _s.append(data)
+        fl["LineReceiver.sendLine"] = fl["basic.LineReceiver.sendLine"]
+        e = dict(env)
+        e.update({"self": object(), "self.lineRate": None, "self._queue": [], "self._queueEmptying": None, p_type: "PRIVMSG", p_user: "u", p_msg: text, p_len: 512})
+        bind_methods(e, [cls], fl, skip={f.name})
+        try:
+            r = eval_block(f.body, e, funcs=fl)
+        except BlockRaised as ex:
+            raise AnalysisError(f"{q}: not evaluable end to end for a message of {len(text)} characters: {ex}")
+        if r.raised:
+            raise AnalysisError(f"{q}: raises for a message of {len(text)} characters: {r.raised}")
+        problem = None
+        got_parts = []
+        for w in sent:
+            w = bytes(w)
+            try:
+                ln = real_dequote((w[:-1] if w.endswith(b"\r") else w).decode("utf-8"))
+            except UnicodeDecodeError as ex:
+                problem = problem or f"a wire line of {len(w)} octets is not UTF-8 ({ex.reason} at octet {ex.start}): a character was cut in two"
+                continue
+            except (Raised, BlockRaised) as ex:
+                raise AnalysisError(f"lowDequote not evaluable on a wire line: {ex}")
+            if not ln.startswith(prefix):
+                problem = problem or f"a wire line does not start with {prefix!r}"
+                continue
+            got_parts.append(ln[len(prefix):])
+        have, want_chars = "".join(c for c in "".join(got_parts) if c not in WS), "".join(c for c in text if c not in WS)
+        if problem is None and have != want_chars:
+            problem = f"the lines on the wire carry {len(have)} of the message's {len(want_chars)} non-blank characters"
+        ctx.check(problem is None, "send/message-reaches-wire-whole", q + f" | message of {len(text)} characters, default-sized lines",
+                  f"msg('u', <{len(text)} characters, {text[:8]!r}...>, length=512) puts {len(sent)} lines on the wire; {problem}: text must never be lost or cut inside a character "
+                  "between the splitter and the transport")
     ctx.check(lost is None, "split/content-preserved", q + " | message parts carry the message",
               lost and f"msg('u', {lost[0]!r}, length={lost[1]}) sends {lost[2]!r}: {lost[3]}", detail=f"{n} (message, length) cases")
     ctx.check(over_plain is None, "limit/plain-text-within-budget", q + " | <ASCII text without characters that quoting expands>",
@@ -460,8 +533,16 @@ def _check_ctcp_framing(ctx, env):
     delim, xq = env["X_DELIM"], env["X_QUOTE"]
     bad = None
     n = 0
-    for w in words((delim, xq, "a", " ", "\x10"), 3):
-        data = "".join(w)
+    # data alphabet: every character either quoting table names (keys and tails), the framing characters, SPC and a plain letter; all words <= 2 over it,
+    # <= 3 over the framing core, and a few longer texts with line breaks in the middle
+    named = set(delim + xq + " a\x10\x00\r\n")
+    for tn in ("mQuoteTable", "xQuoteTable"):
+        for k_, v_ in (env.get(tn) or {}).items():
+            if isinstance(k_, str) and isinstance(v_, str):
+                named |= set(k_) | set(v_)
+    grid = {"".join(w) for w in words(tuple(sorted(named)), 2)} | {"".join(w) for w in words((delim, xq, "a", " ", "\x10"), 3)}
+    grid |= {"first line\nsecond line", "a\r\nb c", "x\x00y z", "two  spaces", " lead", "trail ", "a\nb\nc"}
+    for data in sorted(grid):
         for msgs in ([("TAG", data)], [("PING", "1"), ("X" + data.replace(" ", ""), data)]):
             try:
                 wire = stringify(msgs)
@@ -478,7 +559,45 @@ def _check_ctcp_framing(ctx, env):
                 bad = (msgs, wire, got)
     ctx.check(bad is None, "ctcp/extract-undoes-stringify", base + "ctcpExtract ~ ctcpStringify",
               bad and f"ctcpStringify({bad[0]!r}) = {bad[1]!r} is read back by ctcpExtract as {bad[2]!r}: every (tag, data) pair must come back, and nothing else",
-              detail=f"{n} messages, data over {{X_DELIM, X_QUOTE, 'a', ' ', M_QUOTE}}^<=3")
+              detail=f"{n} messages, data over the {len(named)} characters named by the quoting tables / framing ^<=2, {{X_DELIM, X_QUOTE, 'a', ' ', M_QUOTE}}^<=3, multi-line samples")
+    # structural twin: a compiled pattern the reader applies to message text must let '.' match every character (line breaks are data here)
+    with structural(ctx, "ctcp/reader-regex-any-matches-all", "ctcp/extract-undoes-stringify, dequote/undoes-quote"):
+        import re._parser as sre_parser
+        readers = [fx]
+        work = [fx]
+        while work:
+            for c in ast.walk(work.pop()):
+                if isinstance(c, ast.Call) and isinstance(c.func, ast.Name):
+                    h = next((st for st in mod.tree.body if isinstance(st, ast.FunctionDef) and st.name == c.func.id), None)
+                    if h is not None and h not in readers:
+                        readers.append(h)
+                        work.append(h)
+        used = sorted({nm.id for f_ in readers for nm in ast.walk(f_) if isinstance(nm, ast.Name) and isinstance(env.get(nm.id), re.Pattern)})
+
+        def has_any(items):
+            for op, av in items:
+                if str(op) == "ANY":
+                    return True
+                for sub in (av if isinstance(av, (list, tuple)) else [av]):
+                    if isinstance(sub, sre_parser.SubPattern) and has_any(sub.data):
+                        return True
+                    if isinstance(sub, (list, tuple)):
+                        for s2 in sub:
+                            if isinstance(s2, sre_parser.SubPattern) and has_any(s2.data):
+                                return True
+                            if isinstance(s2, (list, tuple)) and any(isinstance(s3, sre_parser.SubPattern) and has_any(s3.data) for s3 in s2):
+                                return True
+            return False
+        for nm in used:
+            rx = env[nm]
+            try:
+                tree = sre_parser.parse(rx.pattern, rx.flags)
+            except Exception as ex:     # noqa: BLE001
+                raise Abstain(f"pattern {nm} not parseable ({ex})")
+            dot = has_any(tree.data)
+            ctx.check(not dot or bool(rx.flags & re.DOTALL), "ctcp/reader-regex-any-matches-all", f"{base}{nm}",
+                      f"the pattern {rx.pattern!r} is applied to message text by the CTCP reader and contains '.', but is compiled without re.DOTALL: '.' stops at a line feed, "
+                      "so data after an embedded LF is dropped or left unconverted (LF is ordinary data once low-level quoting is undone)")
 
 
 def _check_queue(ctx, env):
